@@ -94,7 +94,10 @@ def const_lit(v):
 
 
 class ClassInfo:
-    def __init__(self, pyname, module, rec, prefix, fields, ignore=()):
+    def __init__(self, pyname, module, rec, prefix, fields, ignore=(), base=None, field_methods=None, props=None):
+        self.base = base                          # python name of the base class whose methods are called via super()
+        self.field_methods = field_methods or {}  # (field, method) -> (template, arg types, result type, fallible)
+        self.props = props or {}                  # property name -> field name
         self.pyname, self.module, self.rec, self.prefix = pyname, module, rec, prefix
         self.fields = list(fields)            # [(name, ty)]
         self.ignore = set(ignore)
@@ -129,6 +132,8 @@ class FnSig:
         outs = []
         if self.kind == 'init':
             return [('obj', self.cls.rec)]
+        if self.kind == 'guard':
+            return []
         if self.mut_self:
             outs.append(('obj', self.cls.rec))
         ptys = dict(self.params)
@@ -236,6 +241,8 @@ class Fn9(FnTranslator):
         if isinstance(e, ast.Attribute):
             ci = self.classref(e.value)
             if ci is not None:
+                if isinstance(e.value, ast.Name) and e.value.id == 'self' and e.attr in ci.props:
+                    e = ast.copy_location(ast.Attribute(value=e.value, attr=ci.props[e.attr], ctx=e.ctx), e)
                 if isinstance(e.value, ast.Name) and e.value.id == 'self' and ci.ftype(e.attr) is not None:
                     nm = 'self_' + e.attr
                     if nm not in env:
@@ -426,10 +433,18 @@ class Fn9(FnTranslator):
             if f.id in self.mod.classes and (f.id, '__init__') in self.mod.funcs:
                 return self.mod.funcs[(f.id, '__init__')], None
             return None, None
+        if isinstance(f, ast.Attribute) and isinstance(f.value, ast.Call) and isinstance(f.value.func, ast.Name) \
+                and f.value.func.id == 'super' and self.cls is not None and self.cls.base:
+            fs = self.mod.funcs.get((self.cls.base, f.attr))
+            if fs is not None and fs.kind == 'guard':
+                return fs, None
+            raise Refuse('super().%s does not resolve to a translated guard (line %d)' % (f.attr, f.lineno))
         if isinstance(f, ast.Attribute):
             ci = self.classref(f.value)
             if ci is not None and (ci.pyname, f.attr) in self.mod.funcs:
                 fs = self.mod.funcs[(ci.pyname, f.attr)]
+                if fs.kind == 'guard':
+                    return fs, None
                 if fs.kind == 'method':
                     if not (isinstance(f.value, ast.Name) and f.value.id == 'self'):
                         raise Refuse('unbound method call')
@@ -450,9 +465,13 @@ class Fn9(FnTranslator):
     def bind_args(self, fs, e, env):
         """positional + keyword + default arguments in parameter order"""
         terms = [None] * len(fs.params)
-        if len(e.args) > len(fs.params):
+        eargs = list(e.args)
+        if fs.kind == 'guard' and eargs and isinstance(eargs[0], ast.Name) and eargs[0].id == 'self' \
+                and not (isinstance(e.func, ast.Attribute) and isinstance(e.func.value, ast.Call)):
+            eargs = eargs[1:]                 # Base.__init__(self, ...)
+        if len(eargs) > len(fs.params):
             raise Refuse('too many arguments for %s' % fs.qual)
-        for k, a in enumerate(e.args):
+        for k, a in enumerate(eargs):
             if isinstance(a, ast.Starred):
                 raise Refuse('star argument')
             terms[k] = self.expr(a, env)
@@ -490,6 +509,20 @@ class Fn9(FnTranslator):
             self.fallible = True
             t = self.fresh()
             return Term(t, 'hmac', k.binds + d.binds + [(t, 'mk_hmac Orc %s %s' % (d.code, k.code))])
+        if isinstance(f, ast.Attribute) and isinstance(f.value, ast.Attribute) and isinstance(f.value.value, ast.Name) \
+                and f.value.value.id == 'self' and self.cls is not None and (f.value.attr, f.attr) in self.cls.field_methods:
+            tmpl, ptys, rty, fallible = self.cls.field_methods[(f.value.attr, f.attr)]
+            recv = self.expr(f.value, env)
+            args = [self.expr(a, env) for a in e.args]
+            if [a.ty for a in args] != list(ptys) or e.keywords:
+                raise Refuse('argument types of self.%s.%s (line %d)' % (f.value.attr, f.attr, e.lineno))
+            code = tmpl.format(*[a.code for a in args], self=recv.code)
+            binds = recv.binds + sum((a.binds for a in args), [])
+            if fallible:
+                self.fallible = True
+                t = self.fresh()
+                return Term(t, rty, binds + [(t, code)])
+            return Term('(%s)' % code, rty, binds)
         fs, recv = self.resolve_fn(f, env)
         if fs is not None:
             terms = self.bind_args(fs, e, env)
@@ -701,7 +734,7 @@ class Fn9(FnTranslator):
             outs.append(m)
         if code is not None:
             outs.append(code)
-        c = outs[0] if len(outs) == 1 else '(' + ', '.join(outs) + ')'
+        c = 'tt' if not outs else (outs[0] if len(outs) == 1 else '(' + ', '.join(outs) + ')')
         return ('Ok %s' % c) if monadic else c
 
     def final(self, env, monadic):
@@ -709,6 +742,8 @@ class Fn9(FnTranslator):
         if self.fs.kind == 'init':
             c = self.self_record(env)
             return ('Ok %s' % c) if monadic else c
+        if self.fs.kind == 'guard':
+            return 'Ok tt' if monadic else 'tt'
         if self.fs.ret != 'None':
             raise Refuse('control reaches end of function without return')
         self.ret_env = env
@@ -716,6 +751,19 @@ class Fn9(FnTranslator):
 
     def store(self, tgt, val, env, monadic, cont):
         """x[i] = val / x[a:b] = val / self.f = val / x = val  then cont(env')"""
+        if isinstance(tgt, ast.Attribute) and isinstance(tgt.value, ast.Attribute) and isinstance(tgt.value.value, ast.Name) \
+                and tgt.value.value.id == 'self' and self.cls is not None:
+            oty = self.cls.ftype(tgt.value.attr)
+            if not (isinstance(oty, tuple) and oty[0] == 'obj'):
+                raise Refuse('nested store into %r' % (oty,))
+            oc = self.mod.class_by_rec(oty[1])
+            fld = oc.props.get(tgt.attr, tgt.attr)
+            if oc.ftype(fld) != val.ty:
+                raise Refuse('store into %s.%s of %r' % (oc.pyname, fld, val.ty))
+            onm = 'self_' + tgt.value.attr
+            codes = [val.code if f_ == fld else '(%s%s %s)' % (oc.prefix, f_, onm) for f_, _ in oc.fields]
+            self.need_monad(val.binds, monadic, tgt)
+            return self.wrap(val.binds, 'let %s := %s in\n%s' % (onm, oc.mk(codes), cont(env)), monadic)
         nm = self.target_name(tgt)
         if nm is None:
             return self.wrap(val.binds, cont(env), monadic) if val.binds else cont(env)
@@ -769,6 +817,16 @@ class Fn9(FnTranslator):
             self.fallible = True
             self.need_monad([1], monadic, s)
             return 'Err %s' % EXN[name]
+        if isinstance(s, ast.Return) and isinstance(s.value, ast.Call) and not rest:
+            fs0, recv0 = self.resolve_fn(s.value.func, env)
+            if fs0 is not None and fs0.kind == 'method' and fs0.mut_self and isinstance(s.value.func, ast.Attribute) \
+                    and isinstance(s.value.func.value, (ast.Name, ast.Attribute)):
+                tmpn = 'ret_%d_' % s.lineno
+                a1 = ast.copy_location(ast.Assign(targets=[ast.Name(id=tmpn, ctx=ast.Store())], value=s.value), s)
+                r1 = ast.copy_location(ast.Return(value=ast.Name(id=tmpn, ctx=ast.Load())), s)
+                ast.fix_missing_locations(a1)
+                ast.fix_missing_locations(r1)
+                return self.block([a1, r1], env, k, monadic)
         if isinstance(s, ast.Return):
             if rest:
                 raise Refuse('code after return')
@@ -945,6 +1003,12 @@ class Fn9(FnTranslator):
                 raise Refuse('mutated argument must be a variable (line %d)' % s.lineno)
             names.append(nm)
         if not names:
+            if fs.kind == 'guard' and fs.fallible:
+                self.fallible = True
+                self.need_monad([1], monadic, s)
+                return self.wrap(binds, '_ <- %s ;;\n%s' % (code, cont(env)), monadic)
+            if fs.kind == 'guard':
+                return self.wrap(binds, cont(env), monadic) if binds else cont(env)
             raise Refuse('statement call without effect (line %d)' % s.lineno)
         pat = names[0] if len(names) == 1 else "'(" + ', '.join(names) + ')'
         rebind = ''
@@ -989,8 +1053,16 @@ class Fn9(FnTranslator):
                 A = self.block(s.body + rest, env, k, monadic)
                 B = self.block(s.orelse, env, None, monadic)
             return self.wrap(c.binds, 'if %s then (\n%s\n) else (\n%s\n)' % (c.code, A, B), monadic)
-        if self.contains_return(s.body) or self.contains_return(s.orelse):
+        def has_return(stmts):
+            return any(isinstance(n, ast.Return) for st in stmts for n in ast.walk(st))
+
+        def has_raise(stmts):
+            return any(isinstance(n, (ast.Raise, ast.Assert)) for st in stmts for n in ast.walk(st))
+        if has_return(s.body) or has_return(s.orelse):
             raise Refuse('partial return inside if (line %d)' % s.lineno)
+        if has_raise(s.body) or has_raise(s.orelse):
+            self.fallible = True
+            self.need_monad([1], monadic, s)
         envs = []
 
         def grab(e2):
@@ -998,12 +1070,15 @@ class Fn9(FnTranslator):
             return '@@JOIN%d@@' % id(s)
         A = self.block(s.body, env, grab, monadic)
         B = self.block(s.orelse, env, grab, monadic)
+        if len(envs) < 2:
+            # a branch that always raises has no continuation environment
+            envs = (envs + [env, env])[:2]
         mod, env2 = self.join(self.assigned(s.body) + self.assigned(s.orelse), envs, env)
         mod = list(dict.fromkeys(mod))
-        if not mod:
+        if not mod and not monadic:
             raise Refuse('if without effect (line %d)' % s.lineno)
-        tup = mod[0] if len(mod) == 1 else '(' + ', '.join(mod) + ')'
-        pat = mod[0] if len(mod) == 1 else "'" + tup
+        tup = 'tt' if not mod else (mod[0] if len(mod) == 1 else '(' + ', '.join(mod) + ')')
+        pat = '_' if not mod else (mod[0] if len(mod) == 1 else "'" + tup)
         mark = '@@JOIN%d@@' % id(s)
         A = A.replace(mark, ('Ok %s' % tup) if monadic else tup)
         B = B.replace(mark, ('Ok %s' % tup) if monadic else tup)
@@ -1075,8 +1150,55 @@ class Fn9(FnTranslator):
         return '%s <- while_fuel (Z.to_nat %s) (fun %s => %s) (fun %s =>\n%s) %s ;;\n%s' % (
             cpat, fuel.code, cpat, c.code, cpat, body, tup, cont(env))
 
+    def dealias(self, body):
+        """`X = self.F` (F a declared sequence field, X never rebound, self.F never rebound) followed by in-place
+        stores through X: X and self.F are the same object, so X is replaced by self.F everywhere."""
+        if self.cls is None:
+            return body
+        cands = {}
+        for st in body:
+            if isinstance(st, ast.Assign) and len(st.targets) == 1 and isinstance(st.targets[0], ast.Name) and \
+                    isinstance(st.value, ast.Attribute) and isinstance(st.value.value, ast.Name) and st.value.value.id == 'self' \
+                    and self.cls.ftype(st.value.attr) is not None and is_seq(self.cls.ftype(st.value.attr)):
+                cands[st.targets[0].id] = (st, st.value.attr)
+        out = {}
+        for x, (st0, fld) in cands.items():
+            rebound, stored, field_rebound = 0, False, False
+            for n in ast.walk(ast.Module(body=body, type_ignores=[])):
+                tg = []
+                if isinstance(n, ast.Assign):
+                    for t in n.targets:
+                        tg += t.elts if isinstance(t, ast.Tuple) else [t]
+                elif isinstance(n, ast.AugAssign):
+                    tg = [n.target]
+                elif isinstance(n, ast.For):
+                    tg = [m for m in ast.walk(n.target) if isinstance(m, ast.Name)]
+                for t in tg:
+                    if isinstance(t, ast.Name) and t.id == x:
+                        rebound += 1
+                    if isinstance(t, ast.Subscript) and isinstance(t.value, ast.Name) and t.value.id == x:
+                        stored = True
+                    if isinstance(t, ast.Attribute) and isinstance(t.value, ast.Name) and t.value.id == 'self' and t.attr == fld:
+                        field_rebound = True
+            if rebound == 1 and stored and not field_rebound:
+                out[x] = (st0, fld)
+        if not out:
+            return body
+
+        class R(ast.NodeTransformer):
+            def visit_Name(self, node):
+                if node.id in out:
+                    return ast.copy_location(ast.Attribute(value=ast.Name(id='self', ctx=ast.Load()), attr=out[node.id][1], ctx=node.ctx), node)
+                return node
+        drop = [st0 for st0, _ in out.values()]
+        new = [R().visit(st) for st in body if st not in drop]
+        return [ast.fix_missing_locations(st) for st in new]
+
     def translate(self):
         env = dict(self.fs.params)
+        self.fdef.body = self.dealias(self.fdef.body)
+        if self.fs.kind == 'method':
+            self.fs.mut_self = assigns_self(self.fdef, self.cls, self.mod.funcs)
         prologue = ''
         if self.fs.kind == 'method':
             for f, t in self.cls.fields:
@@ -1107,8 +1229,23 @@ def _as_load(t):
     raise Refuse('augassign target')
 
 
-def assigns_self(fdef, cls):
+def assigns_self(fdef, cls, funcs=None):
+    funcs = funcs or {}
     for n in ast.walk(fdef):
+        # self.m(...) where m is a translated method that updates self
+        if isinstance(n, ast.Call) and isinstance(n.func, ast.Attribute) and isinstance(n.func.value, ast.Name) \
+                and n.func.value.id == 'self':
+            g = funcs.get((cls.pyname, n.func.attr))
+            if g is not None and g.kind == 'method' and g.mut_self:
+                return True
+        # self.obj.m(...) where obj is an object-valued field and m updates it
+        if isinstance(n, ast.Call) and isinstance(n.func, ast.Attribute) and isinstance(n.func.value, ast.Attribute) \
+                and isinstance(n.func.value.value, ast.Name) and n.func.value.value.id == 'self':
+            ft = cls.ftype(n.func.value.attr)
+            if isinstance(ft, tuple) and ft[0] == 'obj':
+                for (cn, mn), g in funcs.items():
+                    if mn == n.func.attr and g.cls is not None and g.cls.rec == ft[1] and g.kind == 'method' and g.mut_self:
+                        return True
         tg = []
         if isinstance(n, ast.Assign):
             for t in n.targets:
@@ -1118,8 +1255,17 @@ def assigns_self(fdef, cls):
         for t in tg:
             while isinstance(t, ast.Subscript):
                 t = t.value
+            if isinstance(t, ast.Attribute) and isinstance(t.value, ast.Attribute):
+                t = t.value
             if isinstance(t, ast.Attribute) and isinstance(t.value, ast.Name) and t.value.id == 'self' \
                     and cls.ftype(t.attr) is not None:
+                return True
+        # a method of an object-valued field that updates that object
+        if isinstance(n, ast.Call) and isinstance(n.func, ast.Attribute) and isinstance(n.func.value, ast.Attribute) \
+                and isinstance(n.func.value.value, ast.Name) and n.func.value.value.id == 'self':
+            ft = cls.ftype(n.func.value.attr)
+            if isinstance(ft, tuple) and ft[0] == 'obj' and getattr(cls, 'mutating_field_calls', None) and \
+                    (n.func.value.attr, n.func.attr) in cls.mutating_field_calls:
                 return True
     return False
 
@@ -1207,12 +1353,16 @@ class Module9:
                 elif 'classmethod' in decos:
                     fs.kind = 'classm'
                     argnames = argnames[1:]
+                elif fs.kind == 'guard':
+                    if argnames[:1] != ['self']:
+                        raise Refuse('first parameter of %s' % fs.qual)
+                    argnames = argnames[1:]
                 else:
                     fs.kind = 'init' if fname == '__init__' else 'method'
                     if argnames[:1] != ['self']:
                         raise Refuse('first parameter of %s' % fs.qual)
                     argnames = argnames[1:]
-                    fs.mut_self = fs.kind == 'method' and assigns_self(fd, fs.cls)
+                    fs.mut_self = fs.kind == 'method' and assigns_self(fd, fs.cls, self.funcs)
             if argnames != [p for p, _ in fs.params]:
                 raise Refuse('signature of %s changed: %s' % (fs.qual, argnames))
             if fd.args.vararg or fd.args.kwarg or fd.args.kwonlyargs:
@@ -1222,15 +1372,17 @@ class Module9:
                     raise Refuse('non-constant default')
                 fs.defaults[a.arg] = d.value
             fs.oracle = self.oracle
+            if fs.kind == 'guard' and not cname:
+                raise Refuse('guard must be a method')
             self.funcs[(cname, fname)] = fs
             ft = Fn9(self, fd, fs)
             code, monadic = ft.translate()
             fs.fallible = monadic
             params = ' '.join('(%s : %s)' % (p, ty_str(t)) for p, t in
-                              ([('Orc', ('raw', 'Oracles'))] if fs.oracle else []) +
+                              ([('Orc', ('raw', fs.oracle if isinstance(fs.oracle, str) else 'Oracles'))] if fs.oracle else []) +
                               ([('self', ('obj', fs.cls.rec))] if fs.kind == 'method' else []) + fs.params)
             outs = fs.out_types()
-            rty = ty_str(outs[0]) if len(outs) == 1 else '(' + ' * '.join(ty_str(t) for t in outs) + ')'
+            rty = 'unit' if not outs else (ty_str(outs[0]) if len(outs) == 1 else '(' + ' * '.join(ty_str(t) for t in outs) + ')')
             if monadic:
                 rty = 'res (%s)' % rty
             out.append('(* %s:%d %s%s *)' % (relpath, fd.lineno, fs.qual,
